@@ -1,3 +1,4 @@
+import LenaModel.Model.C06
 /-! # C09 model — framework accumulators (fill / compute / reset)
 
 Transcription of the accumulators of
@@ -20,7 +21,8 @@ dyadics `Dy = m × 2^e`.
 Contexts are flat dictionaries `key ↦ leaf` (`Ctx`); the accumulators look at a context only through
 emptiness, `dict.update` and `get("scale")`, and hand it on otherwise.
 
-No imports: this file is executed by `drivers/C09.lean`. -/
+Imports only `LenaModel.Model.C06` (and through it `NArr`): the n-dimensional `Histogram` re-uses C06's
+transcription of `histogram.__init__/fill`.  This file is executed by `drivers/C09.lean`. -/
 
 namespace Lena.C09
 
@@ -38,6 +40,14 @@ inductive Err where
   | valueError
   /-- `LenaTypeError` -/
   | typeError
+  /-- `LenaIndexError` -/
+  | lenaIndexError
+  /-- Python's `TypeError` -/
+  | pyTypeError
+  /-- Python's `AssertionError` (`assert sums` in `Mean.compute`) -/
+  | assertionError
+  /-- input outside the modelled domain (`Lena.Err.unmodelled` of the shared histogram model) -/
+  | unmodelled
   deriving DecidableEq, Repr
 
 /-- a context leaf: `None` or an integer -/
@@ -434,7 +444,7 @@ structure VecSt (σ : Type) where
 /-- `for ind, seq in enumerate(self._seqs): seq.fill(data[ind])` — `IndexError` when the data vector
 is too short (the components before are already filled), further components of a longer vector are
 ignored -/
-def Vec.fillGo {σ ο : Type} (m : Machine σ (Item Int) ο) : List σ → List Int → List σ × Option Err
+def Vec.fillGo {σ δ ο : Type} (m : Machine σ (Item δ) ο) : List σ → List δ → List σ × Option Err
   | [], _ => ([], none)
   | s :: ss, [] => (s :: ss, some .indexError)
   | s :: ss, d :: ds =>
@@ -444,7 +454,7 @@ def Vec.fillGo {σ ο : Type} (m : Machine σ (Item Int) ο) : List σ → List 
     | none => let r' := Vec.fillGo m ss ds; (r.1 :: r'.1, r'.2)
 
 /-- `Vectorize.fill`: the context is stored only after every component was filled -/
-def Vec.fill {σ ο : Type} (m : Machine σ (Item Int) ο) (s : VecSt σ) (v : Item (List Int)) : VecSt σ × Option Err :=
+def Vec.fill {σ δ ο : Type} (m : Machine σ (Item δ) ο) (s : VecSt σ) (v : Item (List δ)) : VecSt σ × Option Err :=
   let r := Vec.fillGo m s.inner v.data
   match r.2 with
   | some e => (⟨r.1, s.ctx⟩, some e)
@@ -452,7 +462,7 @@ def Vec.fill {σ ο : Type} (m : Machine σ (Item Int) ο) (s : VecSt σ) (v : I
 
 /-- start the `compute()` generators in order; the first exception propagates (only `StopIteration`
 is caught in `Vectorize.compute`), the later generators are then never started -/
-def Vec.computeGo {σ ο : Type} (m : Machine σ (Item Int) ο) : List σ → List σ × Except Err (List (List ο))
+def Vec.computeGo {σ δ ο : Type} (m : Machine σ (Item δ) ο) : List σ → List σ × Except Err (List (List ο))
   | [] => ([], .ok [])
   | s :: ss =>
     let r := m.compute s
@@ -467,7 +477,7 @@ def zipLongest {α : Type} (ls : List (List α)) : List (List (Option α)) :=
   (List.range (ls.foldl (fun n l => max n l.length) 0)).map (fun i => ls.map (fun l => l[i]?))
 
 /-- `Vectorize.compute`: `construct` is `None`, so every result is the tuple of the components -/
-def Vec.compute {σ ο : Type} (m : Machine σ (Item Int) ο) (s : VecSt σ) :
+def Vec.compute {σ δ ο : Type} (m : Machine σ (Item δ) ο) (s : VecSt σ) :
     VecSt σ × Except Err (List (Item (List (Option ο)))) :=
   let r := Vec.computeGo m s.inner
   (⟨r.1, s.ctx⟩, match r.2 with
@@ -475,11 +485,11 @@ def Vec.compute {σ ο : Type} (m : Machine σ (Item Int) ο) (s : VecSt σ) :
     | .ok yss => .ok ((zipLongest yss).map (fun row => withCtx row s.ctx)))
 
 /-- `Vectorize.reset`: `for fcel in self._fc_els: fcel.reset(); self._cur_context = {}` -/
-def Vec.reset {σ ο : Type} (m : Machine σ (Item Int) ο) (s : VecSt σ) : VecSt σ := ⟨s.inner.map m.reset, []⟩
+def Vec.reset {σ δ ο : Type} (m : Machine σ (Item δ) ο) (s : VecSt σ) : VecSt σ := ⟨s.inner.map m.reset, []⟩
 
 /-- `Vectorize(seq, dim)`: `[seq] + [deepcopy(seq) for _ in range(dim-1)]` -/
-def vectorizeM {σ ο : Type} (m : Machine σ (Item Int) ο) (dim : Nat) :
-    Machine (VecSt σ) (Item (List Int)) (Item (List (Option ο))) where
+def vectorizeM {σ δ ο : Type} (m : Machine σ (Item δ) ο) (dim : Nat) :
+    Machine (VecSt σ) (Item (List δ)) (Item (List (Option ο))) where
   init := ⟨List.replicate (max dim 1) m.init, []⟩
   fill := Vec.fill m
   compute := Vec.compute m
@@ -648,5 +658,193 @@ def graphM (cfg : GraphCfg) : Machine GraphSt (Item Pt) GraphOut where
   fill s v := (Graph.fill s v, none)
   compute := Graph.compute cfg
   reset := Graph.reset cfg
+
+/-! ## `Vectorize` with a `construct` argument
+
+`res = self._construct(*data)`; a `TypeError` (wrong number of arguments, or `construct=None`) falls back
+to the plain tuple. -/
+
+/-- the `construct` argument, as far as its call can differ: `None`, a callable accepting any number of
+positional arguments, or one accepting exactly `k` of them (e.g. a namedtuple with `k` fields) -/
+inductive Construct where
+  | none
+  | variadic
+  | arity (k : Nat)
+  deriving DecidableEq, Repr
+
+/-- what `Vectorize.compute` yields as data: the constructed object (shown by its arguments) or the tuple -/
+inductive Built (ο : Type) where
+  | made (args : List (Option ο))
+  | tuple (row : List (Option ο))
+
+/-- `try: res = self._construct(*data) / except TypeError: res = data` -/
+def Vec.build {ο : Type} (c : Construct) (row : List (Option ο)) : Built ο :=
+  match c with
+  | .none => .tuple row
+  | .variadic => .made row
+  | .arity k => if row.length = k then .made row else .tuple row
+
+/-- the same element with every yielded value passed through `g` -/
+def Machine.mapOut {σ ι ο ο' : Type} (g : ο → ο') (m : Machine σ ι ο) : Machine σ ι ο' where
+  init := m.init
+  fill := m.fill
+  compute s := let r := m.compute s; (r.1, match r.2 with | .error e => .error e | .ok ys => .ok (ys.map g))
+  reset := m.reset
+
+/-- `Vectorize(seq, dim, construct)` -/
+def vectorizeCM {σ δ ο : Type} (m : Machine σ (Item δ) ο) (dim : Nat) (c : Construct) :
+    Machine (VecSt σ) (Item (List δ)) (Item (Built ο)) :=
+  (vectorizeM m dim).mapOut (fun it => ⟨Vec.build c it.data, it.ctx⟩)
+
+/-! ## Mean around an arbitrary sum sequence (`lena/math/elements.py:31-134`)
+
+`sum_seq` is any FillCompute element `m` with numeric results: `Sum(total)` with a non-zero start,
+`Count()` (its first value carries a context, which updates the yielded one), `StoreFilled(False)` (several
+values: only the first is divided by the count, the others are passed on). -/
+
+structure MeanOverSt (σ : Type) where
+  /-- the state of `sum_seq` -/
+  seq : σ
+  count : Nat
+  ctx : Ctx
+
+/-- `Mean.fill`: `self._sum_seq.fill(data)` (an exception leaves count and context as they are);
+`self._count += 1; self._cur_context = context` -/
+def MeanOver.fill {σ : Type} (m : Machine σ (Item Int) (Item Int)) (s : MeanOverSt σ) (v : Item Int) :
+    MeanOverSt σ × Option Err :=
+  let r := m.fill s.seq ⟨v.data, none⟩
+  match r.2 with
+  | some e => (⟨r.1, s.count, s.ctx⟩, some e)
+  | none => (⟨r.1, s.count + 1, v.context⟩, none)
+
+/-- `Mean.compute` with a sum sequence: `sums = list(sum_seq.compute()); assert sums`; the first value is
+divided by the count and gets the current context updated with its own; every further value is passed on
+with the current context updated with its own -/
+def MeanOver.compute {σ : Type} (m : Machine σ (Item Int) (Item Int)) (passOnEmpty : Bool) (s : MeanOverSt σ) :
+    MeanOverSt σ × Except Err (List (Item Rat)) :=
+  if s.count = 0 then
+    (s, if passOnEmpty then .ok [] else .error .zeroDivision)
+  else
+    let r := m.compute s.seq
+    let s' : MeanOverSt σ := ⟨r.1, s.count, s.ctx⟩
+    match r.2 with
+    | .error e => (s', .error e)
+    | .ok [] => (s', .error .assertionError)
+    | .ok (s0 :: rest) =>
+      (s', .ok (withCtx ((s0.data : Rat) / (s.count : Rat)) (s.ctx.update s0.context)
+        :: rest.map (fun sv => withCtx (sv.data : Rat) (s.ctx.update sv.context))))
+
+/-- `Mean.reset`: `self._sum_seq.reset(); self._count = 0; self._cur_context = {}` -/
+def MeanOver.reset {σ : Type} (m : Machine σ (Item Int) (Item Int)) (s : MeanOverSt σ) : MeanOverSt σ :=
+  ⟨m.reset s.seq, 0, []⟩
+
+/-- `Mean(sum_seq, pass_on_empty)` -/
+def meanOverM {σ : Type} (m : Machine σ (Item Int) (Item Int)) (passOnEmpty : Bool) :
+    Machine (MeanOverSt σ) (Item Int) (Item Rat) where
+  init := ⟨m.init, 0, []⟩
+  fill := MeanOver.fill m
+  compute := MeanOver.compute m passOnEmpty
+  reset := MeanOver.reset m
+
+/-- `StoreFilled(yield_as_a_group=False)` as a sum sequence: it yields the stored values one by one -/
+def storeItemsM : Machine (List (Item Int)) (Item Int) (Item Int) where
+  init := []
+  fill s v := (s ++ [v], none)
+  compute s := (s, .ok s)
+  reset _ := []
+
+/-! ## GroupBy with values whose key cannot be rendered
+
+`to_string(key_dict)` raises `LenaValueError` for a context that is not JSON-serialisable; `GroupBy.fill`
+re-raises it before touching `self.groups`.  A value comes with `none` as its key then. -/
+
+def groupByOptM (κ ι : Type) [DecidableEq κ] : Machine (List (κ × List ι)) (Option κ × ι) (Stored ι) where
+  init := []
+  fill s kv := match kv.1 with
+    | none => (s, some .valueError)
+    | some k => (groupInsert s k kv.2, none)
+  compute s := (s, .ok (s.map (fun g => .group g.2)))
+  reset _ := []
+
+/-! ## Count.run (`lena/flow/elements.py:74-106`): the counter is shared between `run` and `fill` -/
+
+/-- `Count.run(flow)` on a finite flow: every value but the last is passed on unchanged, `self.count` grows by the
+number of values, the last value is yielded as `(data, context ∪ {name: self.count})`; an empty flow yields
+nothing and leaves the counter alone.  (`_cur_context` is not touched by `run`.) -/
+def Count.run {δ : Type} (cfg : CountCfg) (s : CountSt) (flow : List (Item δ)) : CountSt × List (Item δ) :=
+  match flow.getLast? with
+  | none => (s, [])
+  | some last =>
+    let c := s.count + flow.length
+    (⟨c, s.ctx⟩, flow.dropLast ++ [⟨last.data, some (last.context.set cfg.name (some c))⟩])
+
+/-! ## Histogram in any dimension, on C06's transcription of `histogram.__init__` and `histogram.fill`
+
+`Lena.C06.mkHist`, `Lena.C06.fill` (`LenaModel/Model/C06.lean`) are the `histogram` structure for flat
+(one-dimensional) and nested edges; bins are `NArr Int`.  The interpolation guess of the bin search is a
+parameter of that model whose value does not influence the result (`Lena.C06.bin1d_guess_independent`);
+here it is bisection. -/
+
+/-- exception classes of the shared histogram model -/
+def ofLenaErr : Lena.Err → Err
+  | .lenaValueError => .valueError
+  | .lenaTypeError => .typeError
+  | .lenaIndexError => .lenaIndexError
+  | .indexError => .indexError
+  | .typeError => .pyTypeError
+  | .unmodelled => .unmodelled
+
+/-- bisection as the guess of the search along every axis -/
+def bisect (_axis lo hi : Nat) : Int := (((lo + hi) / 2 : Nat) : Int)
+
+structure HistNdCfg where
+  edges : Lena.C06.Edges Int
+  /-- the `bins` argument -/
+  bins : Option (Lena.NArr Int)
+  /-- the value returned by `make_bins()` -/
+  makeBins : Option (Lena.NArr Int)
+  initialValue : Int
+
+structure HistNdSt where
+  hist : Lena.C06.Hist Int Int
+  ctx : Ctx
+
+/-- the bins `__init__` and `reset` hand to `histogram(...)` -/
+def HistNdCfg.startBins (cfg : HistNdCfg) : Option (Lena.NArr Int) :=
+  match cfg.makeBins with
+  | some b => some b
+  | none => cfg.bins
+
+/-- `Histogram.__init__` -/
+def HistogramNd.new (cfg : HistNdCfg) : Except Err HistNdSt :=
+  if cfg.makeBins.isSome && cfg.bins.isSome then .error .typeError
+  else match Lena.C06.mkHist cfg.edges cfg.startBins cfg.initialValue with
+    | .error e => .error (ofLenaErr e)
+    | .ok h => .ok ⟨h, []⟩
+
+/-- `Histogram.fill`: `data, self._cur_context = get_data_context(value)` comes first, so the context is
+set even when `self._hist.fill(data)` raises (a coordinate of the wrong dimension: `LenaValueError`) -/
+def HistogramNd.fill (s : HistNdSt) (v : Item (Lena.C06.Coord Int)) : HistNdSt × Option Err :=
+  match Lena.C06.fill bisect s.hist v.data 1 with
+  | .error e => (⟨s.hist, v.context⟩, some (ofLenaErr e))
+  | .ok h => (⟨h, v.context⟩, none)
+
+/-- `Histogram.compute`: the histogram as it is at that moment, and a copy of the current context -/
+def HistogramNd.compute (s : HistNdSt) : Item (Lena.C06.Hist Int Int) := ⟨s.hist, some s.ctx⟩
+
+/-- `Histogram.reset`: a new `histogram(self._edges, bins, self._initial_value)` (the same call succeeded in
+`__init__`; a failure is shown as an unchanged state) -/
+def HistogramNd.reset (cfg : HistNdCfg) (s : HistNdSt) : HistNdSt :=
+  match Lena.C06.mkHist cfg.edges cfg.startBins cfg.initialValue with
+  | .ok h => ⟨h, []⟩
+  | .error _ => s
+
+/-- the element built by a successful `Histogram(...)` call whose result is `s0` -/
+def histogramNdM (cfg : HistNdCfg) (s0 : HistNdSt) :
+    Machine HistNdSt (Item (Lena.C06.Coord Int)) (Item (Lena.C06.Hist Int Int)) where
+  init := s0
+  fill := HistogramNd.fill
+  compute s := (s, .ok [HistogramNd.compute s])
+  reset := HistogramNd.reset cfg
 
 end Lena.C09
